@@ -415,6 +415,16 @@ func TestSeedFraming(t *testing.T) {
 var whiteSpace = []string{"\t", "\n", "\v", "\f", "\r", " ", "\u0085", " ", " ", " ", " ", " ", " ", " ", " ",
 	" ", " ", " ", " ", " ", " ", " ", " ", " ", "　"}
 
+var wsRunes = func() map[rune]bool {
+	m := map[rune]bool{}
+	for _, ws := range whiteSpace {
+		for _, r := range ws {
+			m[r] = true
+		}
+	}
+	return m
+}()
+
 type parseCase struct {
 	Words []string `json:"words"` // canonical (NFKD) words expected
 	Text  h.S      `json:"text"`  // rendering
@@ -424,12 +434,8 @@ func checkParse(c parseCase) (h.Info, error) {
 	text := string(c.Text)
 	nonASCIISep, compat := false, false
 	for _, r := range text {
-		if r > 0x7f {
-			for _, ws := range whiteSpace {
-				if string(r) == ws {
-					nonASCIISep = true
-				}
-			}
+		if r > 0x7f && wsRunes[r] {
+			nonASCIISep = true
 		}
 	}
 	if norm.NFKD.String(text) != text {
